@@ -163,7 +163,17 @@ pub fn gen_filter(rng: &mut Rng, idx: usize) -> Case {
     // (clap forbids it on the command line, the code still orders them).
     let has_re = rng.chance(1, 3);
     let has_tags = rng.chance(1, 2);
-    let re = has_re.then(|| Regex::new(*rng.pick(REGEXES)).unwrap());
+    // a fifth of the name filters are compiled with `RegexBuilder` flags (the field `cli::Opts::re_filter` is public:
+    // the pattern text alone does not say what such a regex matches)
+    let re = has_re.then(|| {
+        if rng.chance(1, 5) {
+            let pat = *rng.pick(&["ALPHA", "Beta", "a  b", "gam ma", "AA", "xAAy"]);
+            if rng.chance(1, 2) { regex::RegexBuilder::new(pat).case_insensitive(true).build().unwrap() }
+            else { regex::RegexBuilder::new(pat).ignore_whitespace(true).case_insensitive(rng.chance(1, 2)).build().unwrap() }
+        } else {
+            Regex::new(*rng.pick(REGEXES)).unwrap()
+        }
+    });
     let depth = rng.below(5);
     let ast = has_tags.then(|| gen_tagop(rng, depth, TAGS));
     // Every third tag expression goes through the real tag-expression parser.
